@@ -35,9 +35,125 @@ add("names_cu_12", ["C01", "C02", "C18"], timeout=600, est=20, path="registry::h
     bound="every buffer of length <= 12 x every usize offset; unwind 14")
 
 
+# ---------------------------------------------------------------- C03 leaf readers
+add("names_readers_6", ["C03"], tier="quick", timeout=1500, est=400, mem_gb=24, path="registry::h_c03::proofs::",
+    funcs=["Compress::check_compressed_name", "RRIterator::skip_name", "Compress::copy_uncompressed_name", "Compress::raw_name_len_after_decompression", "Compress::raw_name_len", "Compress::raw_name_to_str"],
+    bound="the trusted name readers on every name the validator accepts in every buffer of length <= 6 (all bytes, length, offset symbolic); unwind 9",
+    assume=["names the validator rejects are not explored further (the readers are only ever called on validated names)"])
+add("names_readers_8", ["C03"], tier="thorough", timeout=5400, est=2000, mem_gb=32, path="registry::h_c03_t::proofs::",
+    funcs=["Compress::check_compressed_name", "RRIterator::skip_name", "Compress::copy_uncompressed_name", "Compress::raw_name_len_after_decompression", "Compress::raw_name_len", "Compress::raw_name_to_str"],
+    bound="the trusted name readers on every name the validator accepts in every buffer of length <= 8; unwind 11",
+    assume=["names the validator rejects are not explored further"])
+
+# ---------------------------------------------------------------- C10 size limit
+for n, sec in (("8178", "ar"), ("8179", "ar"), ("8192", "an"), ("8193", "ns"), ("9000", "ar"), ("12", "an")):
+    add("ins_size_%s_%s" % (n, sec), ["C10"], tier="quick", timeout=900, est=60, path="registry::h_c10::proofs::",
+        funcs=["ParsedPacket::insert_rr", "ParsedPacket::insertion_offset", "ParsedPacket::rrcount_inc", "synth::gen::RR::new"],
+        bound="insert_rr of a 14-byte record (symbolic TTL and data byte) into a directly constructed pointer-free object whose packet is %s bytes long, section %s: Ok <=> %s + 14 <= 8192, otherwise PacketTooLarge and nothing changes" % (n, sec, n))
+
+# ---------------------------------------------------------------- C15
+_f15 = ["c_abi::fn_table", "c_abi::{flags,set_flags,rcode,set_rcode,opcode,set_opcode}", "c_abi::{iter_answer,iter_nameservers,iter_additional}", "c_abi::{name,rr_type,rr_class,rr_ttl,set_rr_ttl,rr_ip,set_rr_ip}",
+        "c_abi::{raw_name_from_str,set_raw_name,set_name,delete}", "c_abi::{raw_packet,question,rename_with_raw_names}"]
+_a15 = ["c_abi::throw_err is replaced by a stub returning -1 (its thread_local! slot crashes kani-compiler 0.68): the content and storage of error descriptions are outside the solver's claim",
+        "Kani's pointer checks stay on: a write outside the caller's exact-size buffers is a failed check"]
+for n, what in (("cabi_read_an", "header accessors/setters with any arguments and a read-only walk of the answer section through the section callback (name, rr_type, rr_class, rr_ttl, rr_ip) vs the native API on a twin; skeleton r_a_aaaa"),
+                ("cabi_read_ar_opt", "same on the additional section of skeleton r_optmid (OPT in the middle is skipped)"),
+                ("cabi_write_ttl_ip_0", "set_rr_ttl(any) + set_rr_ip(any) on answer 0 (A) inside the callback vs native"),
+                ("cabi_write_ttl_ip_1", "set_rr_ttl(any) + set_rr_ip(any) on answer 1 (AAAA) inside the callback vs native"),
+                ("cabi_set_raw_name", "set_raw_name(valid raw name) on answer 0 inside the callback vs native"),
+                ("cabi_set_raw_name_bad", "set_raw_name(truncated raw name): -1, packet as after the native failure"),
+                ("cabi_set_name", "set_name('Ok.Net') on answer 1 inside the callback vs raw_name_from_str + set_raw_name natively"),
+                ("cabi_delete", "delete on answer 0 inside the callback vs native"),
+                ("cabi_copyout", "raw_packet with any capacity up to len+2 (copy iff it fits, nothing written otherwise), question(), raw_name_from_str (good and bad text)"),
+                ("cabi_rename", "rename_with_raw_names through the table vs native on skeleton r_nocomp_soa")):
+    add(n, ["C15"], tier="quick", timeout=1800, est=400, mem_gb=32, fs=300, path="registry::h_c15::proofs::", funcs=_f15, assume=_a15,
+        bound=what + "; label characters concrete, all other payload and arguments symbolic")
+OUTSIDE["C15"] = "hook scripts beyond the listed ones; add_to_* (C string + chomp parser: not encoded; the native operation insert_rr_from_string is covered under C13); iter_edns; error_description/CErr (stubbed); the order/count/signature clause of the C header (no C front end is linked into the goto binary: not claimed)"
+
+# ---------------------------------------------------------------- C17
+for n, what in (("pure_parse", "parse(x); parse(y); parse(x): bytes and view identical (x = r_mx_soa, y = r_cname_chain)"), ("pure_uncompress", "uncompress(x); uncompress(y); uncompress(x)"),
+                ("pure_compress", "compress(x); compress(y); compress(x) (pointer-free skeletons, concrete labels)"), ("pure_rename", "Renamer::rename_with_raw_names on x, y, x"),
+                ("pure_synth", "RR::from_string(t1); from_string(t2); from_string(t1) with one symbolic digit")):
+    add(n, ["C17"], tier="quick", timeout=1800, est=400, mem_gb=32, fs=300, path="registry::h_c17::proofs::",
+        funcs=["DNSSector::parse", "Compress::uncompress", "Compress::compress", "Renamer::rename_with_raw_names", "synth::gen::RR::from_string"],
+        bound=what + "; all payload symbolic", assume=["library errors are failed checks (every call must succeed)"])
+OUTSIDE["C17"] = "concurrent schedules (Kani executes sequentially: the 'concurrently on other threads' half is not claimed); sequences longer than x,y,x; inputs outside the listed skeleton pairs; ParsedPacket::empty() (its rand-based id is the permitted randomness)"
+
+# ---------------------------------------------------------------- C13
+_f13 = ["synth::gen::RR::new", "synth::gen::copy_raw_name_from_str", "synth::gen::{A,AAAA,NS,CNAME,PTR,MX,SOA,DS,TXT}::build"]
+_f13p = ["synth::gen::RR::from_string", "synth::parser::rr_parser", "synth::parser::rr_common_parser", "synth::parser::hostname_parser", "synth::parser::decimal_u8/u16/u32",
+         "synth::parser::quoted_and_escaped_string", "synth::parser::hexstring_parser", "chomp combinators"] + _f13
+for w in ("a", "aaaa", "ns", "cname", "ptr", "mx", "soa", "ds", "txt"):
+    add("synth_build_" + w, ["C13"], tier="quick", timeout=600, est=30, path="registry::h_c13::proofs::", funcs=_f13,
+        bound="%s::build with every value of its numeric fields (TTL, address, preference, counters, key tag, digest bytes) and concrete names: result == RFC 1035 wire form" % w.upper())
+for n in ("255", "256"):
+    add("synth_txt_" + n, ["C13"], tier="quick", timeout=900, est=60, path="registry::h_c13::proofs::", funcs=_f13, fs=600,
+        bound="TXT::build with %s bytes of text (two symbolic byte values): chunks of at most 255 bytes" % n)
+_tpl = {"ttl_digit": "last TTL digit any ASCII byte", "ttl_edge": "TTL 429496729X: accepted iff X <= '5' (2^32 edge)", "octet_edge": "IPv4 octet 25X: accepted iff X <= '5'",
+        "separator": "byte between TTL and class: accepted iff space or tab", "keyword_case": "second letter of IN: accepted iff N or n",
+        "mx_pref_edge": "MX preference 6553X: accepted iff X <= '5'", "txt_char": "one TXT character: accepted iff printable ASCII other than backslash and quote",
+        "txt_escape": "TXT escape \\25X: accepted iff X <= '5'", "ds_hex": "second hex digit of a DS digest: accepted iff hex digit (odd length otherwise)",
+        "owner_char": "second character of the owner name", "soa_counter": "last SOA counter digit"}
+for k, v in _tpl.items():
+    add("synth_tpl_" + k, ["C13"], tier="quick", timeout=1200, est=200, mem_gb=24, path="registry::h_c13::proofs::", funcs=_f13p,
+        bound="RR::from_string on a concrete record text with one symbolic byte X (all 128 ASCII values): " + v + "; accepted <=> in grammar, wire form == RFC 1035 encoding")
+add("synth_arbitrary_3", ["C13"], tier="quick", timeout=1200, est=300, mem_gb=24, path="registry::h_c13::proofs::", funcs=_f13p,
+    bound="RR::from_string on every ASCII string of length <= 3: no panic, error")
+for n, what in (("a_an", "A into answer"), ("mx_ns", "MX into authority"), ("txt_ar", "TXT (with a decimal escape) into additional")):
+    add("synth_insert_" + n, ["C13"], tier="quick", timeout=1500, est=300, mem_gb=24, fs=300, path="registry::h_c13::proofs::", funcs=_f13p + ["ParsedPacket::insert_rr_from_string", "ParsedPacket::insert_rr", "DNSSector::parse"],
+        bound="insert_rr_from_string(valid concrete text: %s) on skeleton r_a_aaaa x all payload: the parser accepts the result" % what)
+for n in ("4", "5"):
+    add("synth_arbitrary_" + n, ["C13"], tier="thorough", timeout=5400, est=2000, mem_gb=32, path="registry::h_c13_t::proofs::", funcs=_f13p,
+        bound="RR::from_string on every ASCII string of length <= %s: no panic, error" % n)
+for n in ("0", "1", "510", "511"):
+    add("synth_txt_" + n, ["C13"], tier="thorough", timeout=1800, est=100, fs=1100, path="registry::h_c13_t::proofs::", funcs=_f13,
+        bound="TXT::build with %s bytes of text" % n)
+for n, what in (("aaaa_an", "AAAA"), ("ns_ns", "NS"), ("cname_an", "CNAME"), ("ptr_ar", "PTR"), ("soa_ns", "SOA"), ("ds_an", "DS")):
+    add("synth_insert_" + n, ["C13"], tier="thorough", timeout=3000, est=400, mem_gb=24, fs=300, path="registry::h_c13_t::proofs::", funcs=_f13p + ["ParsedPacket::insert_rr_from_string"],
+        bound="insert_rr_from_string(valid concrete %s text) on skeleton r_a_aaaa x all payload: the parser accepts the result" % what)
+OUTSIDE["C13"] = "record texts with more than one symbolic byte; strings longer than 3 (quick) / 5 (thorough) arbitrary bytes; names and TXT bodies beyond the templates; 62-byte labels and maximal names in text form (the name limits are decided on raw_name_from_str under C14)"
+
+# ---------------------------------------------------------------- C14
+_f14 = ["synth::gen::raw_name_from_str", "synth::gen::copy_raw_name_from_str"]
+for n, t, est in (("text_4_nozone", "quick", 30), ("text_4_zone", "quick", 40), ("text_5_nozone", "quick", 120)):
+    add(n, ["C14"], tier=t, timeout=900, est=est, path="registry::h_c14::proofs::", funcs=_f14,
+        bound="raw_name_from_str on every byte string of length <= %s (all bytes and the length symbolic), %s" % (n.split("_")[1], "zone = \\x02zn\\x00" if "_zone" in n else "no zone"))
+for n in ("text_b_61_100", "text_b_62_100", "text_b_63_100", "text_b_64_100", "text_b_10_252", "text_b_10_253", "text_b_10_254", "text_b_10_255", "text_b_10_256"):
+    add(n, ["C14"], tier="quick", timeout=900, est=60, path="registry::h_c14::proofs::", funcs=_f14,
+        bound="boundary lengths: first label of %s bytes (first byte any LDH_ character), total wire length %s" % tuple(n.split("_")[2:4]))
+for n in ("text_readback_zone", "text_readback_dot"):
+    add(n, ["C14"], tier="quick", timeout=900, est=200, path="registry::h_c14::proofs::", funcs=_f14 + ["TypedIterable::set_raw_name", "TypedIterable::name"], fs=300,
+        bound="set_raw_name(raw_name_from_str('Ab.cD' %s)) on answer 0 of skeleton r_a_aaaa then name(): all payload symbolic, text concrete" % ("+ zone" if "zone" in n else "with trailing dot"))
+for n, est in (("text_6_nozone", 400), ("text_6_zone", 500), ("text_7_nozone", 1500)):
+    add(n, ["C14"], tier="thorough", timeout=3600, est=est, mem_gb=24, path="registry::h_c14_t::proofs::", funcs=_f14,
+        bound="raw_name_from_str on every byte string of length <= %s, %s" % (n.split("_")[1], "zone" if "_zone" in n else "no zone"))
+for n in ("text_b_10_250", "text_b_10_251", "text_b_62_253", "text_b_63_255"):
+    add(n, ["C14"], tier="thorough", timeout=900, est=60, path="registry::h_c14_t::proofs::", funcs=_f14,
+        bound="boundary lengths: first label of %s bytes, total wire length %s" % tuple(n.split("_")[2:4]))
+OUTSIDE["C14"] = "texts longer than 5 (quick) / 7 (thorough) bytes with arbitrary content; boundary texts beyond the listed label/total lengths; read-back with symbolic text (raw_name_to_str branches per byte); zones other than the fixed one"
+
 # ---------------------------------------------------------------- generated skeleton families
 import json as _json, os as _os
 _gen = _os.path.join(_os.path.dirname(_os.path.abspath(__file__)), "harness_gen.json")
 if _os.path.exists(_gen):
     for _n, _m in _json.load(open(_gen)).items():
         H[_n] = _m
+
+
+OUTSIDE.update({
+ "C01": "byte strings longer than the leaf bounds (8 bytes for the compressed-name walker, 12 for the pointer-free one) that are not instances of a skeleton; packets beyond ~300 bytes (in particular the >= 65535 regime); more than one structural damage at a time; stack depth (no recursion in the crate, by inspection)",
+ "C02": "same as C01; label characters are concrete in whole-packet harnesses (the character policy is decided on all bytes by the leaf harness names_cc_8 and by the single-symbolic-byte skeletons)",
+ "C03": "packets outside the accepted skeleton family (<= 10 records, <= 6 options); label characters concrete in whole-packet walks (symbolic in the leaf harness up to 6/8-byte buffers); maximal names only in the thorough tier",
+ "C04": "packets outside the skeleton family; label characters concrete in the question harnesses",
+ "C05": "packets outside the accepted skeleton family; boundaries of records other than those listed per tier",
+ "C06": "label characters concrete (the suffix dictionary branches on every comparison); more than 32 distinct suffixes, nesting deeper than 16, suffixes longer than 127 bytes, names beyond offset 16383: not encoded",
+ "C07": "source/target pairs other than the generated cases; label characters concrete; names longer than the skeletons' except the 255-byte companions (thorough)",
+ "C08": "operation sequences longer than the listed programs (mostly single operations, plus delete walks); starting packets outside the skeleton family; ParsedPacket::empty()-based synthesis",
+ "C09": "same as C08",
+ "C10": "failing operations other than those listed; 65535-record counts",
+ "C11": "sections of more than 3 records; the question section walk (a question-less packet is not accepted by the parser)",
+ "C18": "inputs outside the C01 bounds; the linear budget is checked per harness (steps <= 40*len + 300, per name walk steps <= labels + pointers)",
+})
+ROTATE_K.update({"C01": 6, "C02": 6, "C18": 4, "C03": 4, "C04": 3, "C05": 3, "C06": 1, "C07": 2, "C08": 2, "C09": 2, "C10": 1, "C11": 2})
+MIN_DECIDED.update({p: 2 for p in ["C01", "C02", "C03", "C04", "C05", "C06", "C07", "C08", "C09", "C10", "C11", "C12", "C13", "C14", "C15", "C17", "C18"]})
+JOBS.update({"C08": 10, "C09": 10, "C10": 10, "C11": 10, "C15": 8, "C17": 8, "C13": 10})
